@@ -207,6 +207,7 @@ func corrC13(r *Run) {
 		if len(frame) > 65536 {
 			continue
 		}
+		r.SetReplay(replayReencode(frame))
 		o := readOnce(&chunkReader{data: frame, sched: []int{len(frame)}})
 		if o.Kind != "ok" {
 			r.Count(fmt.Sprintf("%x", frame), false, bucket+"/rejected")
@@ -334,6 +335,7 @@ func corrC13(r *Run) {
 				}
 				qv.Field(mi).Set(reflect.ValueOf(m))
 			}
+			r.SetReplay(replayValue(q))
 			_, err, w, panicked, _ := marshalRec(q)
 			if err != nil || panicked || len(w.calls) != 1 {
 				ok = false
